@@ -689,7 +689,7 @@ func (w *SrvWorld) finish() {
 	if len(w.Real) > 0 {
 		w.checkE2E()
 		w.checkE2ETCP()
-		for _, rc := range w.Real {
+		for _, rc := range w.realClients() {
 			w.closeRealTCP(rc)
 			w.e2eMu.Lock()
 			relay, cli, closed := rc.Relay, rc.Cli, rc.Closed
@@ -728,7 +728,7 @@ func (w *SrvWorld) afterServerClose() {
 	if !w.K.Free {
 		w.checkStreams()
 	}
-	for _, rc := range w.Real {
+	for _, rc := range w.realClients() {
 		w.e2eMu.Lock()
 		rs, rt := rc.sock, rc.tconn
 		w.e2eMu.Unlock()
@@ -740,7 +740,7 @@ func (w *SrvWorld) afterServerClose() {
 		}
 	}
 	// close every harness-owned endpoint so that only library leaks remain
-	for _, p := range w.Peers {
+	for _, p := range w.peersInOrder() {
 		if p.ln != nil {
 			pl := p.ln
 			w.lib("close-peer", func() { _ = pl.Close() })
@@ -757,7 +757,7 @@ func (w *SrvWorld) afterServerClose() {
 			_ = c.closeHow(false)
 		}
 	}
-	for _, c := range w.Clients {
+	for _, c := range w.clientsInOrder() {
 		c.mu.Lock()
 		var open []*TCPConn
 		for _, d := range c.Data {
@@ -770,7 +770,7 @@ func (w *SrvWorld) afterServerClose() {
 			_ = d.closeHow(false)
 		}
 	}
-	for _, c := range w.Clients {
+	for _, c := range w.clientsInOrder() {
 		if c.sock != nil {
 			c.sock.SetHandler(nil)
 			cs := c.sock
@@ -783,12 +783,34 @@ func (w *SrvWorld) afterServerClose() {
 			w.lib("close-client", func() { _ = cc.Close() })
 		}
 	}
-	for _, p := range w.Peers {
+	for _, p := range w.peersInOrder() {
 		ps := p.sock
 		w.lib("close-peer", func() { _ = ps.Close() })
 	}
 	w.finalTries = 0
 	w.K.At(w.K.Now()+5e9, "final", w.final)
+}
+
+// peersInOrder / clientsInOrder: the scripted actors in the order of the plan (what is closed in
+// this order is part of the run's log; a map's order is not reproducible).
+func (w *SrvWorld) peersInOrder() []*PeerActor {
+	var out []*PeerActor
+	for _, p := range w.P.Peers {
+		if a := w.Peers[p.ID]; a != nil {
+			out = append(out, a)
+		}
+	}
+	return out
+}
+
+func (w *SrvWorld) clientsInOrder() []*RawClient {
+	var out []*RawClient
+	for _, c := range w.P.Clients {
+		if a := w.Clients[c.ID]; a != nil {
+			out = append(out, a)
+		}
+	}
+	return out
 }
 
 // final ends the run once no goroutine is parked any more (a stall may outlast the plan).
